@@ -263,6 +263,7 @@ def run_property(prop, tier, harnesses, level, explanation, assumptions, outside
     n_viol = 0
     rng = random.Random(seed)
     kf_lines = []
+    known_reproduced = set()
     replays = 0
     for idx, (h, v, key) in enumerate(violations):
         cexp = os.path.join(OUT, prop, "cex-%d.json" % idx)
@@ -273,6 +274,9 @@ def run_property(prop, tier, harnesses, level, explanation, assumptions, outside
             if k["key"] in (h.name + ":" + key).replace(" ", "_"):
                 kmatch = k
         status, txt = ("skipped", "")
+        if kmatch and kmatch["key"] in known_reproduced:
+            # another counterexample of the same listed finding was already replayed natively
+            continue
         if h.replay and replays >= 6 and n_viol >= 3:
             # enough reproduced counterexamples: the remaining ones are recorded, not replayed
             json.dump({"property": prop, "harness": h.name, "pkg": h.pkg, "violation": v, "model": v.get("model", {}),
@@ -292,7 +296,10 @@ def run_property(prop, tier, harnesses, level, explanation, assumptions, outside
             inconcl.append("%s: counterexample for %r did not reproduce natively (%s): encoding or stub is suspect" % (h.name, key, status))
             continue
         if kmatch:
-            kf_lines.append("KNOWN-FINDING: property=%s %s (%s)" % (prop, kmatch["what"], kmatch["key"]))
+            known_reproduced.add(kmatch["key"])
+            line = "KNOWN-FINDING: property=%s %s (%s)" % (prop, kmatch["what"], kmatch["key"])
+            if line not in kf_lines:
+                kf_lines.append(line)
             continue
         n_viol += 1
         lines.append("VIOLATION property=%s replay=%s" % (prop, cexp))
